@@ -44,6 +44,11 @@ def extract():
     cfg["mv_increments_rmw"] = rmw and uses > 0
     ptc = strip_comments(read("src/ompl/base/src/PlannerTerminationCondition.cpp"))
     cfg["ptc_flags_atomic"] = all(re.search(r"std::atomic<\s*bool\s*>\s+%s\s*;" % n, ptc) for n in ("terminate_", "evalValue_", "signalThreadStop_"))
+    # eval() tests terminate_ before anything else; terminate() writes terminate_ and nothing else
+    me = re.search(r"bool\s+eval\s*\(\s*\)\s*const\s*\{\s*if\s*\(\s*terminate_\s*\)\s*return\s+true\s*;", ptc)
+    mt = re.search(r"void\s+terminate\s*\(\s*\)\s*const\s*\{\s*terminate_\s*=\s*true\s*;\s*\}", ptc)
+    cfg["ptc_eval_terminate_first"] = bool(me) and bool(mt)
+    if not cfg["ptc_eval_terminate_first"]: notes["ptc_eval_terminate_first"] = "eval() starts with the terminate_ test: %s; terminate() only sets terminate_: %s" % (bool(me), bool(mt))
     pd = strip_comments(read("src/ompl/base/src/ProblemDefinition.cpp"))
     m = re.search(r"class\s+ProblemDefinition::PlannerSolutionSet\s*\{", pd)
     ok = False
@@ -89,7 +94,7 @@ def extract():
 
 def to_coq(cfg):
     b = lambda x: "true" if x else "false"
-    order = ["mv_counters_atomic", "mv_increments_rmw", "ptc_flags_atomic", "pdef_solutions_locked", "rng_seeds_locked", "spaces_registry_locked", "console_locked", "gnat_query_no_shared_scratch"]
+    order = ["mv_counters_atomic", "mv_increments_rmw", "ptc_flags_atomic", "ptc_eval_terminate_first", "pdef_solutions_locked", "rng_seeds_locked", "spaces_registry_locked", "console_locked", "gnat_query_no_shared_scratch"]
     return ("(* generated by lib/thread_config.py from %s — do not edit *)\nFrom Coq Require Import List Bool.\nFrom OmplV Require Import ThreadModel ThreadProofs.\n"
             "Definition current : config := mkCfg %s.\n"
             "Theorem current_ok : config_ok current = true.\nProof. reflexivity. Qed.\n"
